@@ -45,7 +45,8 @@ Definition wc (ch : Z) : Z := ch mod 256.
 (* ---------- results ---------- *)
 
 Inductive errkind :=
-| EUntermString | EUntermML | EInvalidML | EInvalidMLComment | EMalformedNumber | EInvalidTilde | EInvalidToken.
+| EUntermString | EUntermML | EInvalidML | EInvalidMLComment | EMalformedNumber | EInvalidTilde | EInvalidToken
+| EEscapeTooLarge.
 
 (* sc.Error(tok, msg): message kind, sc.Pos.Line at that moment (-1 = "at EOF"), the `near` text *)
 Record lexerror := mkErr { e_kind : errkind; e_line : Z; e_text : bytes }.
@@ -147,30 +148,35 @@ Definition scan_number (fuel : nat) (ch : Z) (st : state) : res bytes :=
       if is_numeral text then Ok text st4
       else Err (mkErr EMalformedNumber (line st4) text))).
 
+(* a decimal escape: `digits` are the characters read, v their value; above 255 it is the error
+   "escape sequence too large" with the text backslash + digits *)
+Definition esc_decimal (digits : bytes) (v : Z) (st : state) : res bytes :=
+  if 255 <? v then Err (mkErr EEscapeTooLarge (line st) (92 :: digits)) else Ok [wc v] st.
+
 (* scanEscape: the bytes appended to the buffer *)
-Definition scan_escape (st : state) : bytes * state :=
+Definition scan_escape (st : state) : res bytes :=
   let '(ch, st1) := next st in
-  if ch =? 97 then ([7], st1)            (* a *)
-  else if ch =? 98 then ([8], st1)       (* b *)
-  else if ch =? 102 then ([12], st1)     (* f *)
-  else if ch =? 110 then ([10], st1)     (* n *)
-  else if ch =? 114 then ([13], st1)     (* r *)
-  else if ch =? 116 then ([9], st1)      (* t *)
-  else if ch =? 118 then ([11], st1)     (* v *)
-  else if ch =? 92 then ([92], st1)
-  else if ch =? 34 then ([34], st1)
-  else if ch =? 39 then ([39], st1)
-  else if ch =? 10 then ([10], st1)
-  else if ch =? 13 then ([10], newline 13 st1)   (* unreachable: Next never returns '\r' *)
+  if ch =? 97 then Ok [7] st1            (* a *)
+  else if ch =? 98 then Ok [8] st1       (* b *)
+  else if ch =? 102 then Ok [12] st1     (* f *)
+  else if ch =? 110 then Ok [10] st1     (* n *)
+  else if ch =? 114 then Ok [13] st1     (* r *)
+  else if ch =? 116 then Ok [9] st1      (* t *)
+  else if ch =? 118 then Ok [11] st1     (* v *)
+  else if ch =? 92 then Ok [92] st1
+  else if ch =? 34 then Ok [34] st1
+  else if ch =? 39 then Ok [39] st1
+  else if ch =? 10 then Ok [10] st1
+  else if ch =? 13 then Ok [10] (newline 13 st1)   (* unreachable: Next never returns '\r' *)
   else if is_dec ch then
     if is_dec (peek st1) then
       let '(c2, st2) := next st1 in
       if is_dec (peek st2) then
         let '(c3, st3) := next st2 in
-        ([wc (((ch - 48) * 10 + (c2 - 48)) * 10 + (c3 - 48))], st3)
-      else ([wc ((ch - 48) * 10 + (c2 - 48))], st2)
-    else ([wc (ch - 48)], st1)
-  else ([wc ch], st1).
+        esc_decimal [wc ch; wc c2; wc c3] (((ch - 48) * 10 + (c2 - 48)) * 10 + (c3 - 48)) st3
+      else esc_decimal [wc ch; wc c2] ((ch - 48) * 10 + (c2 - 48)) st2
+    else esc_decimal [wc ch] (ch - 48) st1
+  else Ok [wc ch] st1.
 
 (* scanString: loop with the current character in hand; acc = buffer so far *)
 Fixpoint scan_string_loop (fuel : nat) (quote ch : Z) (st : state) (acc : bytes) : res bytes :=
@@ -180,9 +186,11 @@ Fixpoint scan_string_loop (fuel : nat) (quote ch : Z) (st : state) (acc : bytes)
     if ch =? quote then Ok acc st
     else if (ch =? 10) || (ch =? 13) || (ch <? 0) then Err (mkErr EUntermString (line st) acc)
     else if ch =? 92 then
-      let '(b, st1) := scan_escape st in
-      let '(ch1, st2) := next st1 in
-      scan_string_loop f quote ch1 st2 (acc ++ b)
+      match scan_escape st with
+      | Ok b st1 => let '(ch1, st2) := next st1 in scan_string_loop f quote ch1 st2 (acc ++ b)
+      | Err e => Err e
+      | OutOfFuel => OutOfFuel
+      end
     else
       let '(ch1, st1) := next st in
       scan_string_loop f quote ch1 st1 (acc ++ [wc ch])
